@@ -543,6 +543,9 @@ func (r *replayer) build(dir, pkgName string, race bool) (string, error) {
 	if err != nil {
 		r.bins[key] = ""
 		r.errs[key] = "build failed: " + string(out)
+		if os.Getenv("VX_DEBUG") != "" {
+			fmt.Fprintln(os.Stderr, "native replay build failed:\n"+string(out))
+		}
 		return "", fmt.Errorf("%s", r.errs[key])
 	}
 	r.bins[key] = bin
